@@ -11,7 +11,7 @@ XCHECK = 12
 RULE = ("cases = (history, sealed segment, index file, file state): a generated history (1-2 buckets, 2-4 partition keys, 1-4 events per transaction, payloads 0..45 KB so that a 128 KiB segment is sealed every few appends, now and then a reopen or a crash tearing the live segment; executed by cstore's executor) runs on a REAL "
         "Database and is shut down cleanly; then for a sealed segment one of index.eidx / partition.pidx / stream.sidx is deleted, emptied, cut to a proper prefix (structural cut points: "
         "inside the magic, the counts, the MPHF, header-only, inside / at the end of the records array, inside the values, total-1, every 1 KiB, plus random lengths) or left complete; "
-        "the database is reopened and every committed event of that segment is looked up by id, by a stream scan and by a partition scan (events of the other segments by id). "
+        "or -- once per history -- an empty directory for the next segment is created (the process died inside the rollover); the database is reopened and every committed event of that segment is looked up by id, by a stream scan and by a partition scan (events of the other segments by id). "
         "quick: 12 file states per history, thorough: 60, until the time budget (55 s / 14 min). non-trivial = the file was damaged.")
 ASSUMPTIONS = [
     "Model/IndexFiles.v is hand-written from bucket/event_index.rs, partition_index/{open,closed}.rs, stream_index/{open,closed}.rs and database.rs DatabaseBuilder::open; tie = this differential run",
@@ -92,7 +92,7 @@ LEVEL_TEXT = ("Machine-checked proof (Coq): for every state (missing, empty, eve
               "hands the reader pool exactly the writer's indexes (an index file that is missing or fails the new length validation is rebuilt from the segment's events), every event of every "
               "committed transaction of the segment is found by stream, by partition, and by id when ids are distinct (C06_reopen_total); for every history with rollovers, every crash cut of the live "
               "segment and every combination of index-file states the reopened store is exactly the one C05 describes for undamaged files (C06_crash_during_rollover, C06_crash_step, C06_reopen_step); "
-              "the validation accepts exactly the complete file (C06_validation_exact, C06_rebuilt_iff); the code before the repair failed to open on a short header, skipped missing files and "
+              "the validation accepts exactly the complete file (C06_validation_exact, C06_rebuilt_iff); a next-segment directory without an events file (the process died inside the rollover) changes neither the sealed set nor the live segment, which is never opened as a sealed one (C06_interrupted_rollover_dir, C06_live_not_sealed, before the repair: C06_v0_dir_refuted); the code before the repair failed to open on a short header, skipped missing files and "
               "failed / silently missed lookups on truncated records or values (C06_v0_*_refuted). Tie to the code: real histories, then every structural prefix of each real index file, the real "
               "Database reopened and every event looked up three ways; compared with the extracted model and a direct monitor.")
 LEVEL_NOTE = ("Trusted: Coq kernel, extraction, OCaml driver, Rust harness (it edits the index files in place and restores them). The theorem is about Model/IndexFiles.v + Model/Store.v; index file contents "
